@@ -1,0 +1,12 @@
+//go:build verif
+
+package params
+
+// Contracts for the verification framework in /verif (comment-only file; compiled
+// only with -tags verif, where it contributes nothing but these comments).
+// Shared vocabulary used by the contract files of all modules.
+
+//@ // the KV stores ($kvHas / $kvVal: per store name and full key) did not change
+//@ pred kvUnchanged() = $kvHas == old($kvHas) && $kvVal == old($kvVal)
+//@ // nothing but the entry (st, key) changed
+//@ pred kvOnlyChanged(st, key) = forall s: str, q: str :: {$kvHas[s][q]} !(s == st && q == key) ==> $kvHas[s][q] == old($kvHas[s][q]) && $kvVal[s][q] == old($kvVal[s][q])
